@@ -388,6 +388,13 @@ class SqlImpl(TableImpl):
                 # user only 0-ary functions after the subquery, e.g. `count`.
                 needed_cols[query.select[0]] = 1
 
+            # The subquery must also provide the columns its ORDER BY uses, so that the
+            # enclosing query can keep the order of the rows.
+            for ord in query.order_by:
+                for node in ord.order_by.iter_subtree_postorder():
+                    if isinstance(node, Col) and node._uuid in sqa_expr and node._uuid not in needed_cols:
+                        needed_cols[node._uuid] = 1
+
             # We only want to select those columns that (1) the user uses in some
             # expression later or (2) are present in the final selection.
 
@@ -419,6 +426,8 @@ class SqlImpl(TableImpl):
             query = Query(
                 [uid for uid in original_select if uid in sqa_expr],
                 partition_by=query.partition_by,
+                # `arrange` is not undone by a subquery
+                order_by=query.order_by,
             )
 
         elif isinstance(nd, verbs.Select):
